@@ -31,9 +31,9 @@ func (n *NewCriterionAnchoringApplier) Spec_Identifier() string {
 }
 
 func (n *NewCriterionAnchoringApplier) Spec_BlankParams() FunctionParams {
-	return &utils.Map{
-		"randomSeed": 0,
-	}
+	// C02: no default entry that could compete with a differently spelled key of the request (the zero seed is
+	// the zero value of the decoded struct anyway)
+	return &utils.Map{}
 }
 
 func Spec_addedCriterionName(criteria *model.Criteria, refPointDif model.Alternative) string {
